@@ -31,7 +31,69 @@ def load_programs():
         except OSError:
             continue
         progs.append((pid, src))
+    # regression/witness programs kept by the other engines
+    for path in sorted(glob.glob(os.path.join(common.VERIF, "corpus", "C*", "**", "*.nev"), recursive=True)):
+        if "/C05/" in path or "/C06/" in path or "/C16/" in path:
+            continue            # malformed / ill-typed inputs belong to C05, C06
+        try:
+            progs.append(("corpus/" + os.path.relpath(path, os.path.join(common.VERIF, "corpus")), open(path, errors="replace").read()))
+        except OSError:
+            pass
     return progs
+
+
+PRELUDE = """record A { x : int; } record B { s : string; } enum E { one, two }
+func fi(a : int) -> int { a } func fs(a : string) -> int { 1 }
+"""
+LOCALS = """  let ai = [1,2,3] : int; let ast = ["a","b","c"] : string; let af = [1.5, 2.5] : float;
+  let m = [[1,2],[3,4]] : int;
+"""
+# type shapes: name -> (value expression, statement that uses a variable `v` of that type)
+SHAPES = {
+    "int": ("7", "print(v + 1)"),
+    "string": ('"str"', 'prints(v + "\\n")'),
+    "char": ("'c'", "printc(v)"),
+    "bool": ("true", "print(v ? 1 : 0)"),
+    "arr_int": ("ai", "print(v[0] + 1)"),
+    "arr_string": ("ast", 'prints(v[0] + "\\n")'),
+    "arr_float": ("af", "printf(v[0])"),
+    "arr2_int": ("m", "print(v[1,1])"),
+    "slice_int": ("ai[0..1]", "print(v[0] + 1)"),
+    "slice_string": ("ast[0..1]", 'prints(v[0] + "\\n")'),
+    "slice_float": ("af[0..1]", "printf(v[0])"),
+    "range": ("[0..3]", "print(v[1])"),
+    "rec_A": ("A(1)", "print(v.x + 1)"),
+    "rec_B": ('B("q")', 'prints(v.s + "\\n")'),
+    "enum": ("E::one", "print(v == E::one ? 1 : 0)"),
+    "fun_int": ("fi", "print(v(1))"),
+    "fun_string": ("fs", 'print(v("a"))'),
+}
+PARAM_DECL = {
+    "int": "p : int", "string": "p : string", "char": "p : char", "bool": "p : bool",
+    "arr_int": "p[D] : int", "arr_string": "p[D] : string", "arr_float": "p[D] : float", "arr2_int": "p[D1, D2] : int",
+    "rec_A": "p : A", "rec_B": "p : B", "enum": "p : E", "fun_int": "p(int) -> int", "fun_string": "p(string) -> int",
+}
+
+
+def illtyped_matrix():
+    """ordered pairs of distinct type shapes: `var v = <T1 value>; v = <T2 value>; use v as T1` and
+    `take(p : T1) … take(<T2 value>)`.  Every one is ill-typed: if the compiler accepts it, it is
+    run, and a crash is a C01 violation (tag confusion)."""
+    cases = []
+    names = sorted(SHAPES)
+    for t1 in names:
+        for t2 in names:
+            if t1 == t2 or (t1, t2) == ("int", "enum"):     # enum -> int is an admitted conversion
+                continue
+            v1, use1 = SHAPES[t1]
+            v2, _ = SHAPES[t2]
+            src = PRELUDE + "func main() -> int {\n" + LOCALS + "  var v = %s;\n  v = %s;\n  %s;\n  0\n}\n" % (v1, v2, use1)
+            cases.append({"id": "illtyped|assign|%s<-%s" % (t1, t2), "src": src, "pid": "illtyped:assign:%s<-%s" % (t1, t2)})
+            if t1 in PARAM_DECL:
+                src = (PRELUDE + "func take(%s) -> int { %s; 0 }\n" % (PARAM_DECL[t1], use1.replace("v", "p").replace("prints(p", "prints(p").replace("print(p", "print(p"))
+                       + "func main() -> int {\n" + LOCALS + "  take(%s)\n}\n" % v2)
+                cases.append({"id": "illtyped|arg|%s<-%s" % (t1, t2), "src": src, "pid": "illtyped:arg:%s<-%s" % (t1, t2)})
+    return cases
 
 
 def chunks(l, n):
@@ -64,6 +126,8 @@ def run(ctx):
              "stack": rng.choice([31, 36, 50, 90, 150, 400])}
         c["id"] = "%s|m%d|s%d" % (pid, c["mem"], c["stack"])
         cases.append(c)
+    matrix = illtyped_matrix()
+    cases += matrix
     batches = list(chunks(cases, 60))
     results = vmcheck.pmap(lambda b: nevrun.run_batch(drv, b, timeout_per=8), batches)
     hist = collections.Counter()
@@ -79,6 +143,10 @@ def run(ctx):
             hist[cls.split(":")[0] if not cls.startswith("CRASH") else "CRASH"] += 1
             ctx.count(evaluations=1)
             classes_per_prog[c["pid"]].add(cls.split(":")[0])
+            if c["pid"].startswith("illtyped:"):
+                hist["illtyped_" + ("rejected" if cls == "compile_error" else "ACCEPTED")] += 1
+                if cls != "compile_error" and not cls.startswith("CRASH"):
+                    ctx.coverage.setdefault("illtyped_accepted_without_crash", []).append(c["pid"])
             if cls.startswith("CRASH"):
                 ctx.violation(key_of(c["pid"], cls), "%s on accepted program %s (mem=%s stack=%s)" % (
                     cls, c["pid"], c.get("mem"), c.get("stack")),
